@@ -626,6 +626,11 @@ class Repo(object):
         f = lambda x: self._fold(x, m, cls, env)
         if isinstance(e, ast.Constant):
             return e.value
+        if '$x' in env and isinstance(e, (ast.Call, ast.Attribute, ast.Subscript)):
+            # expression-text overrides supplied by a decision-table enumeration (e.g. len(txTo.vout) -> 2)
+            t = ast.unparse(e)
+            if t in env['$x']:
+                return env['$x'][t]
         if isinstance(e, ast.Name):
             if e.id in env:
                 return env[e.id]
